@@ -1,4 +1,5 @@
 import Gsu.Model.Dnum
+import Gsu.Model.Div128
 import Gsu.Util.Proto
 open Gsu.Proto Gsu.Dnum
 
@@ -27,7 +28,7 @@ def step (l : List String) : String :=
   | ["add", a, b] => bin add a b
   | ["sub", a, b] => bin sub a b
   | ["mul", a, b] => bin mul a b
-  | ["div", a, b] => bin div a b
+  | ["div", a, b] => bin divM a b   -- Div with the mirrored div128 algorithm
   | ["neg", a] => (match parseDnum a with | some x => showDnum (neg x) | none => "bad-op")
   | ["cmp", a, b] =>
     match parseDnum a, parseDnum b with
@@ -42,7 +43,7 @@ def step (l : List String) : String :=
     | none => "bad-op"
   | ["div128", a, b] =>
     match parseNat a, parseNat b with
-    | some a, some b => toString (div128 a b)
+    | some a, some b => toString (div128m a b)   -- the mirrored algorithm, not the specification
     | _, _ => "bad-op"
   | ["ilog10", n] => (match parseNat n with | some n => toString (ilog10 n) | none => "bad-op")
   | _ => "bad-op"
